@@ -348,6 +348,39 @@ Definition read_file_fuel (pol : policy) (fuel : nat) (b : list N) : res (index 
 Definition read_file_bytes (pol : policy) (b : list N) : res (index * list N) * list alloc :=
   read_file_fuel pol (blocks_fuel b) b.
 
+(* ---- reader.go: CalculateFragmentation, ReadAllBlocks -------------------------------------------------
+   both run the same block loop (readNextBlock) as LoadIndex. *)
+
+(* all entries of the file, in order *)
+Definition read_entries (pol : policy) (b : list N) : res (list entry) :=
+  match fst (new_file_reader b) with
+  | Ok op => fst (read_blocks pol (blocks_fuel b) (skipN (data_start_offset (o_hdr op)) b))
+  | Err e => Err e | Panic => Panic | OutOfFuel => OutOfFuel
+  end.
+
+(* (live keys, total entries): liveKeys follows insert/update/delete exactly like the index *)
+Definition calc_fragmentation (pol : policy) (b : list N) : res (N * N) :=
+  bind (read_entries pol b) (fun es => Ok (lenN (fst (apply_entries [] es)), lenN es)).
+
+Fixpoint count_blocks (pol : policy) (fuel : nat) (rest : list N) : N :=
+  match fuel with
+  | O => 0
+  | S f => match fst (next_block pol rest) with
+           | StBlock _ rest' => 1 + count_blocks pol f rest'
+           | _ => 0
+           end
+  end.
+
+(* (number of blocks, number of entries in them) *)
+Definition read_all_blocks (pol : policy) (b : list N) : res (N * N) :=
+  match fst (new_file_reader b) with
+  | Ok op =>
+      let rest := skipN (data_start_offset (o_hdr op)) b in
+      bind (fst (read_blocks pol (blocks_fuel b) rest)) (fun es =>
+      Ok (count_blocks pol (blocks_fuel b) rest, lenN es))
+  | Err e => Err e | Panic => Panic | OutOfFuel => OutOfFuel
+  end.
+
 (* ---- reader.go: ReadSwampName ------------------------------------------------------------------------ *)
 
 Definition read_swamp_name (pol : policy) (b : list N) : res (list N) :=
@@ -400,6 +433,7 @@ Inductive obs_load := LOk (idx : index) (name : list N) | LErr (e : err) | LPani
 Inductive obs_scan := SOk (bc ec us : N) | SErr (e : err) | SPanic | STimeout.
 Inductive obs_name := NOk (name : list N) | NErr (e : err) | NPanic | NTimeout.
 Inductive obs_sn := GOk (out : list N) | GErr.
+Inductive obs_cnt := COk (a b : N) | CErr (e : err) | CPanic | CTimeout.
 
 Record case := MkCase {
   c_eofs : bool * bool * bool;   (* observed tail classification: partial header, no payload, short payload *)
@@ -410,7 +444,9 @@ Record case := MkCase {
   c_load : obs_load;             (* NewFileReader + LoadIndex *)
   c_scan : obs_scan;             (* NewFileReader + ScanBlockHeaders *)
   c_name : obs_name;             (* ReadSwampName *)
-  c_alloc_all : N;               (* runtime TotalAlloc delta over all three calls *)
+  c_frag : obs_cnt;              (* NewFileReader + CalculateFragmentation: live keys, total entries *)
+  c_blocks : obs_cnt;            (* NewFileReader + ReadAllBlocks: blocks, entries *)
+  c_alloc_all : N;               (* largest runtime TotalAlloc delta of one of the five entry points *)
   c_alloc_load : N               (* ... over NewFileReader + LoadIndex only *)
 }.
 
@@ -429,21 +465,23 @@ Definition idx_eqb (a b : index) : bool :=
   Nat.eqb (length a) (length b) && idx_keys_nodup a && idx_keys_nodup b &&
   forallb (fun p => option_eqb bytes_eqb (idx_get (fst p) b) (Some (snd p))) a.
 
-(* what "in proportion to the file" means for the measured allocation of the three calls:
-   two loads (LoadIndex and the V2 path of ReadSwampName) may each reserve one entry table of
-   65535 entries, everything else is linear in the file *)
-Definition impl_alloc_bound (n : N) : N := 8388608 + 64 * n.
-(* tie between the model's request log and the runtime's accounting (generous: maps, slices
-   growing, os.File, error values) *)
-Definition impl_alloc_tie (model_total : N) : N := 65536 + 4 * model_total.
+(* what "in proportion to the file" means for the measured allocation of ONE entry point: one
+   entry table of at most 65535 entries (48 bytes each, < 4 MiB) for the block that fails or is
+   being parsed, everything else linear in the file *)
+Definition impl_alloc_bound (n : N) : N := 4194304 + 64 * n.
+(* tie between the model's request log and the runtime's accounting for NewFileReader+LoadIndex
+   (slack for the map, growing slices, os.File, error values) *)
+Definition impl_alloc_tie (model_total : N) : N := 16384 + 4 * model_total.
 
 Definition check_case (c : case) : N :=
   let pol := cur_policy (c_eofs c) in
   let (mload, mlog) := read_file_bytes pol (c_file c) in
   let panicked := match c_load c, c_scan c, c_name c with
-                  | LPanic, _, _ | _, SPanic, _ | _, _, NPanic => true | _, _, _ => false end in
+                  | LPanic, _, _ | _, SPanic, _ | _, _, NPanic => true | _, _, _ => false end
+                  || match c_frag c, c_blocks c with CPanic, _ | _, CPanic => true | _, _ => false end in
   let hung := match c_load c, c_scan c, c_name c with
-              | LTimeout, _, _ | _, STimeout, _ | _, _, NTimeout => true | _, _, _ => false end in
+              | LTimeout, _, _ | _, STimeout, _ | _, _, NTimeout => true | _, _, _ => false end
+              || match c_frag c, c_blocks c with CTimeout, _ | _, CTimeout => true | _, _ => false end in
   if panicked then 2
   else if hung then 3
   else if impl_alloc_bound (lenN (c_file c)) <? c_alloc_all c then 4
@@ -473,7 +511,16 @@ Definition check_case (c : case) : N :=
                   | Ok n, NOk n' => bytes_eqb n n'
                   | Err e, NErr e' => err_eqb e e'
                   | _, _ => false end) then 14
-    else if impl_alloc_tie (alloc_total mlog) <? c_alloc_load c then 15
+    else if negb (match calc_fragmentation pol (c_file c), c_frag c with
+                  | Ok (a, b), COk a' b' => (a =? a') && (b =? b')
+                  | Err e, CErr e' => err_eqb e e'
+                  | _, _ => false end) then 16
+    else if negb (match read_all_blocks pol (c_file c), c_blocks c with
+                  | Ok (a, b), COk a' b' => (a =? a') && (b =? b')
+                  | Err e, CErr e' => err_eqb e e'
+                  | _, _ => false end) then 17
+    (* every entry point runs the same block loop with at most the allocations of LoadIndex *)
+    else if impl_alloc_tie (alloc_total mlog) <? N.max (c_alloc_load c) (c_alloc_all c) then 15
     else 0.
 
 Definition check_all (cases : list case) : list verdict := check_cases check_case cases.
